@@ -8,6 +8,7 @@ from core import (SVal, TupleVal, LocalDict, FuncVal, ClassVal, ModuleVal, ExcVa
                   KInt, KReal, KBool, KStr, KOpt, KList, KDict, KSet, KCounter, KTuple, KExt, KVec,
                   CheckerError, fresh_name, fresh_val, I, B, R)
 from engine_expr import is_exc, BINOPS
+from contracts import clause
 
 NEXT = ('next',)
 BREAK = ('break',)
@@ -602,7 +603,7 @@ class StmtMixin:
 
     def for_over(self, s, st, fr, it):
         # concrete iterable: unroll
-        tagged = isinstance(it, tuple) and it and isinstance(it[0], str) and it[0] in ('range', 'view', 'zip', 'enumerate')
+        tagged = isinstance(it, tuple) and it and isinstance(it[0], str) and it[0] in ('range', 'view', 'viewsnap', 'zip', 'enumerate')
         if isinstance(it, (TupleVal, list)) or (isinstance(it, tuple) and not tagged):
             items = list(it.items) if isinstance(it, TupleVal) else list(it)
             return self.unroll(s, st, fr, items)
@@ -610,8 +611,14 @@ class StmtMixin:
             return self.unroll(s, st, fr, list(it.d.keys()))
         if isinstance(it, range):
             return self.unroll(s, st, fr, list(it))
+        poskeys = None
         if isinstance(ops.kind_of(it), (KDict, KSet)):
             it = self.snapshot_keys(st, it)
+        elif isinstance(it, tuple) and it and it[0] == 'view':
+            # iterate a dict view through one snapshot of its keys (exposes _pos(key) to invariants)
+            _, mode, d = it
+            poskeys = self.snapshot_keys(st, d)
+            it = ('viewsnap', mode, d, poskeys)
         seqv = self.as_sequence(st, fr, it)
         idx, inv = self.loop_spec(s, fr)
         if inv is None:
@@ -620,7 +627,7 @@ class StmtMixin:
             # the loop head changed: the invariant is still applied by ordinal (a failing VC is then
             # reported against the property); the mismatch is recorded in the evidence
             self.stats['dropped'].add('loop signature changed: %s loop[%s]: %r != %r' % (fr.qual, idx, inv.sig, self.loop_sig(s)))
-        return self.loop_vc(s, st, fr, idx, inv, seqv, it if isinstance(ops.kind_of(it), KList) else None)
+        return self.loop_vc(s, st, fr, idx, inv, seqv, it if isinstance(ops.kind_of(it), KList) else None, poskeys)
 
     def unroll(self, s, st, fr, items):
         outs = []
@@ -717,18 +724,22 @@ class StmtMixin:
     def check_inv(self, st, fr, inv, idx, phase, st_entry, extra):
         f2 = self.inv_frame(fr, st_entry, extra)
         for j, text in enumerate(inv.inv):
+            text, tags = clause(text)
             v = self.ev1(self.parse_spec(text), st, f2)
-            self.oblige(st, '%s#loop[%d].%s[%d]' % (fr.prefix, idx, phase, j), truthy(v), {'text': text})
+            self.oblige(st, '%s#loop[%d].%s[%d]' % (fr.prefix, idx, phase, j), truthy(v), {'text': text, 'tags': tags})
 
     def assume_inv(self, st, fr, inv, idx, st_entry, extra):
         f2 = self.inv_frame(fr, st_entry, extra)
         for j, text in enumerate(inv.inv):
+            text = clause(text)[0]
             v = self.ev1(self.parse_spec(text), st, f2)
             st.assume(asz(truthy(v)))
 
-    def loop_vc(self, s, st, fr, idx, inv, seqv, seqval=None):
+    def loop_vc(self, s, st, fr, idx, inv, seqv, seqval=None, poskeys=None):
         n, get = seqv
         sq = {'_seq': seqval} if seqval is not None else {}
+        if poskeys is not None:
+            sq['_pos'] = FuncVal('builtin', qual='zfunc.pos', py=(self.snapshot_idx[poskeys.t[1].get_id()], KInt))
         if seqval is not None and seqval.t[1].get_id() in self.snapshot_idx:
             # iteration over a dict/set snapshot: _pos(key) is the position of a key in the iteration order
             sq['_pos'] = FuncVal('builtin', qual='zfunc.pos', py=(self.snapshot_idx[seqval.t[1].get_id()], KInt))
